@@ -267,6 +267,80 @@ Theorem C05_signature_invariant_reached :
          wreach cr kp c d bs cl -> FInv cr c d bs cl /\ PInv cr sk c d bs.
 Proof. exact wreach_inv. Qed.
 
+(* Tie of the HASH LAYOUTS to the source, regenerated on every run: tools/srchash.py parses src/crypto/hash.rs — the v10 functions the
+   crate calls, Hash::data / Hash::parent / Hash::tree (src/tree/merkle_tree_changeset.rs, merkle_tree.rs) and signable_tree; the
+   big-endian from_leaf / from_hashes / from_roots are used by the file's own tests only — into SrcHash.v: the ORDERED sequence of
+   `hasher.update(X)` arguments (for signable_tree the fields of `to_encoded_bytes!`), each classified symbolically (HashDesc.v):
+   a byte constant with the value the source gives it, the 8-byte little-endian `e.as_fixed_width()` of a u64 expression (also through
+   `let size = ..` and `&buffer[..8]` / `&buffer[8..]`), `u64_as_be(e)`, the WHOLE of a `&[u8]` parameter, a node's hash,
+   `as_array::<32>(hash)?`, or HOther for anything else (e.g. a sub-slice of the data); for Hash::parent the ordering
+   `let (node1, node2) = if left.index <= right.index { (left, right) } else { (right, left) }`, for Hash::tree the loop body.
+   `tied_fn None _` (not found in the recognisable form) is True. For every description that was found, the model's preimage — what
+   every theorem above hashes and signs — IS its interpretation (meaning pinned by C05_source_hash_layouts_meaning), for all
+   arguments: same items, same order, same endianness, the whole data, the same ordering of the two children. *)
+From HC Require Import HashDesc SrcHash.
+From HC Require HashTie.
+Local Open Scope string_scope.
+Local Open Scope list_scope.
+Local Open Scope N_scope.
+
+(* the variables a node named s gives a value to: its fields and its getters *)
+Definition C05_node_nvars (s : string) (n : node) : list (string * N) :=
+  [(String.append s ".index", n_index n); (String.append s ".length", n_length n);
+   (String.append s ".index()", n_index n); (String.append s ".len()", n_length n)].
+
+(* Hash::parent(left, right) read as a program over its description *)
+Definition C05_parent_interp (d : parent_desc) (a b : node) : option bytes :=
+  let node_of (s : string) := if String.eqb s "left" then Some a else if String.eqb s "right" then Some b else None in
+  let cond := truthy (reval (env_of (C05_node_nvars "left" a ++ C05_node_nvars "right" b)) (pd_cond d)) in
+  let '(s1, s2) := if cond then pd_then d else pd_else d in
+  match node_of s1, node_of s2 with
+  | Some n1, Some n2 =>
+      let '(x1, x2) := pd_names d in
+      HashTie.hinterp (env_of (C05_node_nvars x1 n1 ++ C05_node_nvars x2 n2))
+                      (HashTie.benv_of [(x1, n_hash n1); (x2, n_hash n2)]) (pd_items d)
+  | _, _ => None
+  end.
+
+(* Hash::tree(roots): the updates before the loop, the loop body once per root, the updates after it *)
+Definition C05_tree_interp (d : tree_desc) (roots : list node) : option bytes :=
+  let one (n : node) := HashTie.hinterp (env_of (C05_node_nvars (td_var d) n)) (HashTie.benv_of [(td_var d, n_hash n)]) (td_body d) in
+  match HashTie.hinterp (env_of []) (HashTie.benv_of []) (td_before d), HashTie.opt_concat (map one roots),
+        HashTie.hinterp (env_of []) (HashTie.benv_of []) (td_after d) with
+  | Some x, Some y, Some z => Some (x ++ y ++ z)
+  | _, _, _ => None
+  end.
+
+Theorem C05_source_hash_layouts :
+  tied_fn src_hash_data (fun items => forall data,
+    HashTie.hinterp (env_of [("data.len()", len data)]) (HashTie.benv_of [("data", data)]) items = Some (leaf_preimage data)) /\
+  tied_fn src_hash_parent (fun d => forall a b, n_length a + n_length b < 18446744073709551616 ->
+    C05_parent_interp d a b = Some (parent_preimage a b)) /\
+  tied_fn src_hash_tree (fun d => forall roots, C05_tree_interp d roots = Some (tree_preimage roots)) /\
+  tied_fn src_signable_tree (fun items => forall hash length fork, List.length hash = 32%nat ->
+    HashTie.hinterp (env_of [("length", length); ("fork", fork)]) (HashTie.benv_of [("hash", hash)]) items
+    = Some (signable hash length fork)).
+Proof. exact HashTie.source_hash_layouts_are_the_models. Qed.
+
+(* what the vocabulary means (the definitions live in HashDesc.v / HashTie.v; this pins their meaning; reval / env_of / tied_fn are
+   pinned by C06_source_functions_meaning) *)
+Theorem C05_source_hash_layouts_meaning :
+  (forall ne be, HashTie.hinterp ne be [] = Some []) /\
+  (forall ne be it r, HashTie.hinterp ne be (it :: r) =
+     match HashTie.hitem_bytes ne be it, HashTie.hinterp ne be r with Some a, Some b => Some (a ++ b) | _, _ => None end) /\
+  (forall ne be nm v, HashTie.hitem_bytes ne be (HConst nm v) = Some v) /\
+  (forall ne be e, HashTie.hitem_bytes ne be (HLe64 e) = Some (le_bytes 8 (reval ne e))) /\
+  (forall ne be e, HashTie.hitem_bytes ne be (HBe64 e) = Some (rev (le_bytes 8 (reval ne e)))) /\
+  (forall ne be x, HashTie.hitem_bytes ne be (HRaw x) = Some (be x)) /\
+  (forall ne be x, HashTie.hitem_bytes ne be (HHash x) = Some (be x)) /\
+  (forall ne be x, HashTie.hitem_bytes ne be (HHash32 x) = Some (be x)) /\
+  (forall ne be s, HashTie.hitem_bytes ne be (HOther s) = None) /\
+  (forall x, HashTie.benv_of [] x = []) /\
+  (forall y v r x, HashTie.benv_of ((y, v) :: r) x = if String.eqb y x then v else HashTie.benv_of r x) /\
+  (HashTie.opt_concat [] = Some []) /\
+  (forall x r, HashTie.opt_concat (x :: r) = match x, HashTie.opt_concat r with Some a, Some b => Some (a ++ b) | _, _ => None end).
+Proof. exact HashTie.hash_desc_meaning. Qed.
+
 Print Assumptions C05_batch_is_reference.
 Print Assumptions C05_from_empty.
 Print Assumptions C05_signature_over_reference.
@@ -285,3 +359,5 @@ Print Assumptions ProofContent.toy_served_block_and_upgrade.
 Print Assumptions ProofContent.ex_signature_clauses_hold.
 Print Assumptions ProofContent.stale_header_signature_detected.
 Print Assumptions ProofContent.always_none_refuted.
+Print Assumptions C05_source_hash_layouts.
+Print Assumptions C05_source_hash_layouts_meaning.
